@@ -555,6 +555,9 @@ pub fn run_case(c: &Value, variant: usize) -> Vec<String> {
     let g = |k: &str| c[k].as_u64().unwrap_or(0) as usize;
     let ctor = c["ctor"].as_str().unwrap_or("?");
     let (a, k, l1, l2, lo, up, cap) = (g("a"), g("k"), g("l1"), g("l2"), g("lo"), g("up"), g("cap"));
+    // 97: a reported length whose size in bytes wraps around to zero
+    let wrap = |x: usize| if x == 97 { usize::MAX / std::mem::size_of::<E>() + 1 } else { x };
+    let (l1, l2, lo, up) = (wrap(l1), wrap(l2), wrap(lo), wrap(up));
     let xres = c["result"].as_str().unwrap_or("?");
     let mut errs: Vec<String> = vec![];
     if g("afail") == 1 {
